@@ -33,11 +33,11 @@ def node_mc(mon):
         {"module": "MC_Node", "cfg": "MC_Node_tiny.cfg", "workers": 12, "timeout": 1500, "env": env,
          "what": "exhaustive: every call of the tiny alphabet, depth 2, all renew policies", "tiers": ("thorough",)},
         {"module": "MC_Node", "cfg": "MC_Node_sim.cfg", "workers": 8, "env": env,
-         "simulate": {"quick": "-simulate num=2500 -depth 61", "thorough": "-simulate num=8000 -depth 61"},
+         "simulate": {"quick": "-simulate num=1200 -depth 61", "thorough": "-simulate num=8000 -depth 61"},
          "timeout": {"quick": 300, "thorough": 1500},
          "what": "random walks of depth 60 over the full alphabet, timers delivered exactly once in any order"},
         {"module": "MC_Node", "cfg": "MC_Node_simforge.cfg", "workers": 8, "env": env,
-         "simulate": {"quick": "-simulate num=1500 -depth 61", "thorough": "-simulate num=5000 -depth 61"},
+         "simulate": {"quick": "-simulate num=800 -depth 61", "thorough": "-simulate num=5000 -depth 61"},
          "timeout": {"quick": 300, "thorough": 1500},
          "what": "as above plus forged / stale / duplicated timers"},
     ]
@@ -495,3 +495,9 @@ PROPS["C15"]["mc"] = [{"module": "MC_C15", "cfg": "MC_C15.cfg", "workers": 8, "t
 PROPS["C16"]["mc"] = [{"module": "MC_C15", "cfg": "MC_C16.cfg", "workers": 8, "timeout": 1500,
                        "what": "exhaustive: Backlog (fill_with_len_prefix) - 3 keys, sizes {3,5}, max_transmissions 3, space 0..18, "
                                "every history of accept/fill to depth 5, every legal outcome of each fill"}] + PROPS["C16"]["mc"]
+
+
+# specification -> implementation: behaviours generated by TLC from MC_Node (random walks with forged timers, depth 40)
+# are replayed on a real instance and validated like any other trace
+for _p in ("C06", "C07", "C08", "C09", "C10", "C11", "C12", "C13", "C15", "C16", "C17", "C19"):
+    PROPS[_p]["scripts"] = {"cfg": "MC_Node_scripts.cfg", "num": {"quick": 40, "thorough": 400}, "depth": 41}
